@@ -242,6 +242,32 @@ def cases(run, rng):
                              "sql_12": x, "sql_21": y, "known": "C13-where-before-on-conflict"})
             else:
                 SEEN["pairs_equal"] += 1
+        # the head of a statement: from_ / into / select / where in every order - what is rendered depends only on whether into() comes
+        # before select() (INSERT .. SELECT) or after it (SELECT .. INTO), not on where from_() and where() stand
+        t, u = P.Table("t"), P.Table("u")
+        head = {"from_": lambda q: q.from_(u), "into": lambda q: q.into(t), "select": lambda q: q.select(u.a), "where": lambda q: q.where(u.b == 1)}
+        groups = {}
+        for perm in itertools.permutations(head):
+            if perm.index("where") < perm.index("from_"):
+                continue                                   # (known finding C13-where-before-from)
+            try:
+                q = qc._builder()
+                for k in perm:
+                    q = head[k](q)
+                x = sql(q, qc.SQL_CONTEXT)
+            except Exception:
+                continue
+            if x.startswith("EXC"):
+                continue
+            groups.setdefault(perm.index("into") < perm.index("select"), {}).setdefault(x, perm)
+        for into_first, texts in groups.items():
+            SEEN["pairs"] += 1
+            if len(texts) > 1:
+                (x, p1), (y, p2) = list(texts.items())[:2]
+                FAIL.append({"kind": "calls that address different clauses do not commute", "class": QNAMES[qc], "base": "empty", "first": "/".join(p1), "second": "/".join(p2),
+                             "sql_12": x, "sql_21": y, "known": None})
+            else:
+                SEEN["pairs_equal"] += 1
         # the insert / update families
         t = P.Table("t")
         a = sql(qc.into(t).columns("a").columns("b", "c").insert(1, 2, 3).insert(4, 5, 6), qc.SQL_CONTEXT)
